@@ -81,6 +81,10 @@ func NewSqlite(path string, cfg *SqliteConfig) (*Sqlite, error) {
 	connParams.Add("_pragma", "synchronous(NORMAL)")
 	// Enforce foreign key constraints.
 	connParams.Add("_pragma", "foreign_keys(1)")
+	// The mattn/go-sqlite3 driver does not know "_pragma"; it takes its own
+	// DSN keys. Without foreign keys the ON DELETE CASCADE clauses of the
+	// schemas never fire and rows of child tables outlive their parent.
+	connParams.Add("_foreign_keys", "1")
 	// Use shared cache for in-memory databases to allow multiple connections.
 	if c.InMemory {
 		registerMemoryDB(noFile)
